@@ -61,6 +61,18 @@ def _ipow(b: Any, n: int) -> Any:
     return r
 
 
+def unround(v: Any) -> Any:
+    """A concrete float constant stands for the simplest rational it rounds to (4 / -5 folded to -0.8 means -4/5):
+    'up to floating-point rounding of constants the rule folded'.  Only applied when that rational is within
+    1e-12 (relative) of the float; other floats keep their exact binary value."""
+    if isinstance(v, float) and v == v and v not in (float("inf"), float("-inf")) and v != 0:
+        f = Fraction(v)
+        g = f.limit_denominator(10**6)
+        if g != 0 and abs((f - g) / f) < Fraction(1, 10**12):
+            return g
+    return v
+
+
 def zeval(node: Any, dom: List[Any], ctx: Optional[Ctx] = None) -> Any:
     k = kind(node)
     if k == "const":
@@ -70,7 +82,7 @@ def zeval(node: Any, dom: List[Any], ctx: Optional[Ctx] = None) -> Any:
         if v is None:
             raise Undefined("constant without value")
         try:
-            return RV(v if not hasattr(v, "item") else v.item())
+            return RV(unround(v if not hasattr(v, "item") else v.item()))
         except Unsupported:
             raise Undefined("non-finite constant")
     if k == "var":
@@ -202,7 +214,7 @@ def ceval(node: Any, env: Dict[str, Any]) -> Any:
     """Exact value (Fraction), float for irrational powers, or None when undefined."""
     k = kind(node)
     if k == "const":
-        return to_frac(node.value)
+        return to_frac(unround(node.value if not hasattr(node.value, "item") else node.value.item()))
     if k == "var":
         v = env.get(node.identifier)
         return None if v is None else to_frac(v)
